@@ -79,6 +79,17 @@ def write_replay(prop, payload):
     return str(p)
 
 
+MAX_REPLAYS = 25
+
+
+def add_violation(ctx, res, clause, payload, summary):
+    """Record a violation; only the first MAX_REPLAYS get a replay file (the rest are counted)."""
+    res.coverage["violations_total"] = res.coverage.get("violations_total", 0) + 1
+    if len(res.violations) >= MAX_REPLAYS:
+        return
+    res.violations.append(Violation(clause, write_replay(ctx.prop, payload), summary))
+
+
 def load_known(prop):
     if not KNOWN.exists():
         return []
